@@ -522,6 +522,14 @@ func init() {
 		ex.sc.fun("time_unix", []string{sInt, sInt}, sInt)
 		return Val{T: sig.Results().At(0).Type(), L: []string{app("time_unix", a[0].term(), a[1].term())}}
 	})
+	reg("(time.Time).UnixNano", func(ex *Exec, fr *Frame, st *State, reach string, a []Val, sig *types.Signature, pos token.Pos) Val {
+		// documented: undefined when the instant does not fit into an int64 count of nanoseconds
+		v := ex.freshVal(st, sig.Results().At(0).Type(), "unixnano")
+		t := a[0].term()
+		ex.sc.assert(mkImp(mkAnd(mkCmp(">=", t, "(- 9223372036854775808)"), mkCmp("<=", t, "9223372036854775807")), mkEq(v.term(), t)))
+		ex.assumedUsed["time.Time.UnixNano: the abstract instant itself when it fits into int64, any int64 otherwise (as documented)"] = true
+		return v
+	})
 	reg("time.Sleep", func(ex *Exec, fr *Frame, st *State, reach string, a []Val, sig *types.Signature, pos token.Pos) Val {
 		ex.lockFreeAtEnv(fr, st, reach, "time.Sleep", pos)
 		return Val{T: sig.Results()}
